@@ -89,3 +89,10 @@ pub fn edits(f: &[&str]) -> String {
     let _ = fs::remove_dir_all(&dir);
     out
 }
+
+pub fn dispatch(f: &[&str]) -> Option<String> {
+    match f.first().copied() {
+        Some("edits") => Some(edits(&f[1..])),
+        _ => None,
+    }
+}
